@@ -138,6 +138,9 @@ def gen_plan(seed, tier):
       # inside the preprocessor - array-like, nested list or callable alike
       ops[-1]["oob"] = dict(pos=r.random(), beyond=r.randint(0, 3), neg=r.random() < 0.3)
   plan = dict(run_seed=seed, dataset=desc, cls=name, params=p, pre=pre, ops=ops, int_store=int_store)
+  rw = substream(seed, "c05-otherwidth")
+  if rw.random() < 0.3:
+    plan["final_other_width"] = rw.choice([1, -1])
   rt = substream(seed, "c05-tail")
   if pre != "store" and int_store is None and rt.random() < 0.25 and \
       not any(o["op"] in ("swap_pre", "mutate_pre") for o in ops):
@@ -521,6 +524,39 @@ def run_plan(plan):
       if kind == "fit" and oa == "ok":
         ev["state"] = state_digest(A)
       events.append(ev)
+    if plan.get("final_other_width") and not plan.get("int_store"):
+      # last act: both estimators are fitted on FORMED data of another width than the
+      # preprocessor's rows - formed data never consults (or is measured against) the preprocessor
+      i = len(plan["ops"])
+      S_ = np.asarray(D.S, dtype=float)
+      D2 = copy.copy(D)
+      if plan["final_other_width"] < 0 and S_.shape[1] >= 3:
+        D2.S = np.ascontiguousarray(S_[:, :-1])
+      else:
+        D2.S = np.hstack([S_, S_[:, :1] * 0.5 + S_[:, -1:] ** 2])
+      D2.d = D2.S.shape[1]
+      _, bf = _fit_indices(name, D2, dict(seed=plan["run_seed"] % 10**6, dtype="int64", order=True))
+      c_before = calls()
+      oa, va, ea = _invoke(A, "fit", tuple(copy.deepcopy(x) for x in bf), {})
+      if store is not None and calls() != c_before:
+        raise Violation("formed_not_consulted", "method=fit,other_width",
+                        "%s.fit on formed data called the preprocessor" % name)
+      ob, vb, eb = _invoke(B, "fit", tuple(copy.deepcopy(x) for x in bf), {})
+      events.append(dict(i=i, op="fit_other_width", a=oa, b=ob))
+      cov["formed_fit_of_other_width"] += 1
+      if oa != ob:
+        raise Violation("interchangeable", "method=fit,outcome,formed_other_width",
+                        "%s.fit on formed data with %d features: with a preprocessor (%s, %d columns) -> %s, "
+                        "without -> %s (%s | %s)" % (name, D2.d, plan["pre"], S_.shape[1], oa, ob,
+                                                     str(ea)[:120], str(eb)[:120]))
+      if oa == "ok":
+        La, Lb = vars(A).get("components_"), vars(B).get("components_")
+        if La is not None and Lb is not None and not np.iscomplexobj(La):
+          ok, _ = _same(La.T.dot(La), Lb.T.dot(Lb)) if La.shape == Lb.shape else (False, False)
+          if not ok:
+            raise Violation("interchangeable", "method=fit,model,formed_other_width",
+                            "%s: fitted metric on formed data depends on the presence of a preprocessor" % name)
+        compared += 1
   except Violation as v:
     violation = dict(oracle=v.oracle, sig="cls=%s,%s" % (name, v.sig), detail=v.detail, op=i)
     events.append(dict(i=i, violation=v.sig))
